@@ -27,5 +27,5 @@ else
   git apply "$SD/patch.diff" || { echo "[seed] patch does not apply"; exit 2; }
 fi
 cd /verif
-VERIF_REPO="$WT" bin/check "$ID" "$TIER" 2>&1 | grep -v "^\[go\]\|^\[run\]" | tail -6 | cut -c1-400
+VERIF_EVIDENCE_DIR="$WT/.verif_evidence" VERIF_REPO="$WT" bin/check "$ID" "$TIER" 2>&1 | grep -v "^\[go\]\|^\[run\]" | tail -6 | cut -c1-400
 echo "[seed] check exit: ${PIPESTATUS[0]}"
